@@ -201,9 +201,11 @@ def apply_attr_models():
 
 
 def run_apply(P, signature, axis, args=None, boundary_width=None, axnames=("AX", "AY"), positions=None, map_overlap=False,
-              pad_before_func=True, other_component=None, grid=None, extra_kwargs=None, func=None, **over):
+              pad_before_func=True, other_component=None, grid=None, extra_kwargs=None, func=None, attr_models=None, **over):
     """Evaluate grid_ufunc.apply_as_grid_ufunc as a whole.  `args`: callable returning the tuple of data arguments."""
-    ev = Evaluator(P, models=apply_models(), attr_models=apply_attr_models(), method_models=da_method_models())
+    am = apply_attr_models()
+    am.update(attr_models or {})
+    ev = Evaluator(P, models=apply_models(), attr_models=am, method_models=da_method_models())
     fi = P.func("grid_ufunc:apply_as_grid_ufunc")
     import copy
 
